@@ -707,6 +707,8 @@ class C05(PropBase):
         "comparisons / + - / widening `as`) and its reading of the operands (frame.context.get_instruction_pointer(), "
         "get_stack_pointer(), ctx.esp / ctx.rsp / ctx.get_register_always(sp), args.callee_frame.trust == FrameTrust::Context, "
         "get_memory_at_address::<u8>(sp).is_none()) when it re-emits the guards of get_caller_frame / walk_stack as Gen/UnwindTail.v",
+        "the translator's token-level templates of instruction_seems_valid_by_symbols (fill_symbol abstracted as: Err / Ok without set_function / "
+        "Ok after set_function(name) with name.is_empty() known) and of arm64 ptr_auth_strip (checked_next_power_of_two = 2^log2_up, `&` = Z.land)",
         "C11's model of SymbolFile::fill_symbol (C11.Model.symbolize) stands for fill_symbol in c05_function_covers; C11's own check ties it to the code",
         "oracles of the model (Section variables): module lookup (contract = C08 c08_lookup_sound), symbol-file CFI/WIN walk "
         "(contract: register values fit the register width), instruction_seems_valid_by_symbols — universally quantified in the theorems",
@@ -729,6 +731,15 @@ class C05(PropBase):
                 "walker made of the generated pieces - the walker the correspondence run executes). "
                 "c05_function_covers: for every frame of a walk, its module (C08 range map) covers the instruction and the function C11's model of "
                 "fill_symbol sets is a FUNC record of that module's file with base <= instruction < base + size (or a PUBLIC record at or below it). "
+                "Second pass: the scan acceptance test (every <arch>::instruction_seems_valid front test, is_non_canonical, and the whole body of "
+                "lib.rs instruction_seems_valid_by_symbols), arm64's ptr_auth_strip (statement by statement) and the FrameTrust of every "
+                "StackFrame construction site are re-emitted from the Rust text too; c05_scan_accepted (every frame marked scan passed the front "
+                "test and the symbol test; no hypotheses), c05_instr_valid_pinned (generated = model; the driver runs the generated by_symbols "
+                "body), c05_isv_by_symbols_sound (an accepted address is >= 2 and address - 1 lies in a module without symbols or with a named "
+                "function; any lookup / provider), c05_scan_in_module (end to end through C08 for the walker the driver runs), "
+                "c05_ptr_auth_strip_source (generated strip never traps, = the model's ptr mod 2^k, never grows a pointer), c05_trusts_pinned "
+                "(cfi_scan / prewalked / none are constructed nowhere), c05_stack_memory_edges (empty stack memory or one whose end exceeds "
+                "2^64 - 1: exactly the context frame). "
                 "The model is tied to the code by running minidump_unwind::walk_stack and the extracted model on generated adversarial and "
                 "well-formed stacks in debug and release builds; an independent oracle evaluates the invariants on the implementation's frames, "
                 "incl. module covers and function covers (function base/name observed per frame, judged against the FUNC records of the case's own "
